@@ -1061,10 +1061,9 @@ class ParallelFilter(FilterList):
 
   @property
   def denpoly(self):
-    try:
-      return reduce(operator.mul, (filt.denpoly for filt in self.callables))
-    except AttributeError:
+    if not self.is_linear():
       raise AttributeError("Non-linear filter")
+    return reduce(operator.add, self).denpoly # Same sum used by numpoly
 
   @elementwise("freq", 1)
   def freq_response(self, freq):
